@@ -23,7 +23,7 @@ func init() {
 
 func runC11(p *Prog, r *Report) {
 	r.Min("C11.R1", 4)
-	r.Min("C11.R2", 4+3)
+	r.Min("C11.R2", 4+3+1)
 	r.Min("C11.R3", 3*2)
 	r.Min("C11.R4", 3+4)
 	r.Min("C11.R5", 3+2)
@@ -34,6 +34,7 @@ func runC11(p *Prog, r *Report) {
 	}
 	checkCacheSchema(p, r)
 	checkCacheLoader(p, r)
+	checkScannerBuffers(p, r, "C11.R2")
 	// the loader's error reaches the caller: no deferred literal on the way from the option parser to
 	// FillCache replaces it (a read fault or damaged line would otherwise start the scan with a partial cache)
 	{
